@@ -393,6 +393,15 @@ class SBig:
             return SBig.of(int(x))
         return None
 
+    def to_bytes(s, length, byteorder="big", *, signed=False):
+        """int.to_bytes: a list of `length` byte values (each an SBig in 0..255); OverflowError when the value does not fit, as CPython raises"""
+        lo, hi = (-(1 << (8 * length - 1)), (1 << (8 * length - 1)) - 1) if signed else (0, (1 << (8 * length)) - 1)
+        fits = core.SBool(z3.And(s.bv >= z3.BitVecVal(lo, W), s.bv <= z3.BitVecVal(hi, W)))
+        if not fits:
+            raise OverflowError("int too big to convert")
+        out = [SBig(z3.ZeroExt(W - 8, z3.Extract(8 * i + 7, 8 * i, s.bv)), 9) for i in range(length)]
+        return out if byteorder == "little" else out[::-1]
+
     def _bin(s, o, f, nb, rev=False):
         if isinstance(o, SNp):
             return NotImplemented
